@@ -182,7 +182,8 @@ where
         };
         let end = memchr::memchr3(b'\n', b'{', b'}', rest);
         let element_type = |text: &[u8]| {
-            if text.iter().any(|&c| c != b' ') {
+            // a lone CR is trimmed like a space at the end of a pattern, so it cannot make a line non-blank
+            if text.iter().any(|&c| c != b' ' && c != b'\r') {
                 TextElementType::NonBlank
             } else {
                 TextElementType::Blank
